@@ -8,16 +8,11 @@ Local Open Scope Z_scope.
 Local Open Scope string_scope.
 
 Definition with_flag (i : nat) (q : oquirks) : oquirks :=
-  match i with
-  | 0%nat => Build_oquirks false (q_syntax_line_zero q) (q_text_omit_zero q) (q_text_raw_newline q) (q_group_missing_config_ignored q) (q_dry_empty_config_crashes q)
-  | 1%nat => Build_oquirks (q_sarif_unsanitized q) false (q_text_omit_zero q) (q_text_raw_newline q) (q_group_missing_config_ignored q) (q_dry_empty_config_crashes q)
-  | 2%nat => Build_oquirks (q_sarif_unsanitized q) (q_syntax_line_zero q) false (q_text_raw_newline q) (q_group_missing_config_ignored q) (q_dry_empty_config_crashes q)
-  | 3%nat => Build_oquirks (q_sarif_unsanitized q) (q_syntax_line_zero q) (q_text_omit_zero q) false (q_group_missing_config_ignored q) (q_dry_empty_config_crashes q)
-  | 4%nat => Build_oquirks (q_sarif_unsanitized q) (q_syntax_line_zero q) (q_text_omit_zero q) (q_text_raw_newline q) false (q_dry_empty_config_crashes q)
-  | _ => Build_oquirks (q_sarif_unsanitized q) (q_syntax_line_zero q) (q_text_omit_zero q) (q_text_raw_newline q) (q_group_missing_config_ignored q) false
-  end.
+  let f (k : nat) (b : bool) := if Nat.eqb i k then false else b in
+  Build_oquirks (f 0%nat (q_sarif_unsanitized q)) (f 1%nat (q_syntax_line_zero q)) (f 2%nat (q_text_omit_zero q)) (f 3%nat (q_text_raw_newline q))
+                (f 4%nat (q_group_missing_config_ignored q)) (f 5%nat (q_dry_empty_config_crashes q)) (f 6%nat (q_valueerror_aborts_run q)).
 
-Definition candidates (q : oquirks) : list oquirks := q :: map (fun i => with_flag i q) [0; 1; 2; 3; 4; 5]%nat ++ [ideal].
+Definition candidates (q : oquirks) : list oquirks := q :: map (fun i => with_flag i q) [0; 1; 2; 3; 4; 5; 6]%nat ++ [ideal].
 
 (* strings given as byte lists by the harness (binary numerals: cheap to parse) *)
 Fixpoint sx (l : list N) : string :=
@@ -90,11 +85,24 @@ Definition defect_classes (q : oquirks) (srcs : list vsrc) : list bool :=
     existsb (src_line_zero q) srcs;
     existsb (fun v => rule_ok (v_rule v) && negb (text_ok (with_flag 3 q) v)) vs;
     existsb (fun v => rule_ok (v_rule v) && negb (text_ok (with_flag 2 q) v)) vs;
-    false; false ].
+    false; false; false ].
 Definition usage_classes (cmd : string) (c : uclass) : list bool :=
   [ false; false; false; false;
     match c with UGroupMissingConfig => true | _ => false end;
-    match c with UEmptyConfig => String.eqb cmd "dry" | _ => false end ].
+    match c with UEmptyConfig => String.eqb cmd "dry" | _ => false end;
+    false ].
+
+(* ---------- a run on existing paths that may be ended by a failing rule: three exit codes (one per format) ---------- *)
+Definition aborted (o : outcome) : bool := match o with OExit _ => true | OPerformed => false end.
+Definition judge_run (q : oquirks) (files : list lintfile) (ej es et : Z) : list bool :=
+  let impl_aborted := negb (((ej =? 0) || (ej =? 1)) && ((es =? 0) || (es =? 1)) && ((et =? 0) || (et =? 1)))%Z in
+  let agrees (o : outcome) := match o with
+                              | OExit z => ((ej =? z) && (es =? z) && (et =? z))%Z
+                              | OPerformed => negb impl_aborted
+                              end in
+  [ negb impl_aborted; negb (aborted (run_outcome ideal files)) ]
+  ++ map (fun c => agrees (run_outcome c files)) (candidates q)
+  ++ [ false; false; false; false; false; false; existsb storage_raises files ].
 
 (* ---------- unit level: the renderers called in-process on known Violation objects ---------- *)
 Definition judge_unit (q : oquirks) (version : string) (srcs : list vsrc) (impl_vs : list viol)
@@ -153,6 +161,9 @@ Definition judge_usage (q : oquirks) (cmd : string) (c : uclass) (impl_exit perf
 (* ---------- leaf level: the sanitiser against CPython's codec ---------- *)
 Definition judge_sanitize (cases : list (string * string)) : list bool :=
   map (fun p => String.eqb (sanitize (fst p)) (snd p)) cases.
+(* ... and the recogniser of well-formed UTF-8 against CPython's strict decoder *)
+Definition judge_utf8_valid (cases : list (string * bool)) : list bool :=
+  map (fun p => Bool.eqb (utf8_valid (fst p)) (snd p)) cases.
 
 (* every command click registers must have an exit site in the generated table *)
 Definition judge_commands (cmds : list string) : list bool :=
